@@ -513,6 +513,8 @@ class Ex:
             return z3.BoolVal(a is b)
         if isinstance(a, VRef) and isinstance(b, VRef):
             return a.t == b.t
+        if self.spec_mode and isinstance(a, (VRef, VInt)) and isinstance(b, (VRef, VInt)) and (isinstance(a, VRef) or isinstance(b, VRef)):
+            return a.t == b.t        # specification text: a quantified integer standing for a reference
         if isinstance(a, VBool) and isinstance(b, VBool):
             return a.t == b.t
         if isinstance(a, VPy) and isinstance(b, VPy):
@@ -1542,6 +1544,8 @@ class Ex:
         if isinstance(obj, VObj):
             v = self.get_field(obj, name)
             if v is not None:
+                if self.old_mode and isinstance(v, VBox) and self.old is not None and id(v) in self.old:
+                    return VBox(v.kind, self.old[id(v)], v.name + "@old")      # read-only view of the entry content
                 return v
             m = w.speclib.model_method(obj.cls, name)
             if m is not None:
@@ -1618,7 +1622,7 @@ class Ex:
             return self.eval(e.args[0])
         if isinstance(e.func, ast.Name) and e.func.id == "super":
             return self.world.speclib.make_super(self)
-        if self.spec_mode and isinstance(e.func, ast.Name) and e.func.id in ("old", "forall", "exists", "implies"):
+        if self.spec_mode and isinstance(e.func, ast.Name) and e.func.id in ("old", "forall", "exists", "implies", "forall_any"):
             return self.spec_call(e)
         f = self.eval(e.func)
         args = []
@@ -1660,6 +1664,21 @@ class Ex:
                 return VBool(True)          # the consequent is not evaluated (it may not even be well typed)
             # evaluate the consequent under the antecedent without forking the path
             return VBool(z3.Implies(a, self.truth(self.eval_guarded(e.args[1], a))))
+        if nm == "forall_any":
+            # forall_any(x, body): x ranges over all integers (opaque item values, references)
+            var = e.args[0].id
+            iv = z3.Int(fresh_name(var))
+            fr = self.frame()
+            saved = fr.vars.get(var)
+            fr.vars[var] = VInt(iv)
+            try:
+                body = self.truth(self.eval_guarded(e.args[1], z3.BoolVal(True)))
+            finally:
+                if saved is None:
+                    fr.vars.pop(var, None)
+                else:
+                    fr.vars[var] = saved
+            return VBool(z3.ForAll([iv], body))
         if nm in ("forall", "exists"):
             # forall(i, lo, hi, body)
             var = e.args[0].id
